@@ -50,8 +50,8 @@ func (e *Engine) atomNonneg(key string) bool {
 	switch {
 	case at.Kind == "byte", at.Kind == "bv":
 		return at.Kind == "byte" || at.BV != nil
-	case at.Fn == "len", at.Fn == "cap", at.Fn == "index", at.Fn == "idiv":
-		return true
+	case at.Fn == "len", at.Fn == "cap", at.Fn == "index", at.Fn == "idiv", at.Fn == "short":
+		return true // lengths, byte elements, quotients of those, byte counts of a short read
 	}
 	if at.Type != nil {
 		if b, ok := at.Type.Underlying().(*types.Basic); ok && b.Info()&types.IsUnsigned != 0 {
@@ -281,16 +281,42 @@ func (e *Engine) proveGE0(target *Form, facts []geZero) (bool, string) {
 	}
 	// non-negativity of atoms as extra facts
 	all := append([]geZero(nil), facts...)
-	for a := range target.Atoms() {
+	seenAtom := map[string]bool{}
+	addAtom := func(a string) {
+		if seenAtom[a] {
+			return
+		}
+		seenAtom[a] = true
 		if e.atomNonneg(a) {
 			all = append(all, geZero{formAtom(a), a + " >= 0"})
 		}
+		// upper bound of a byte / a bit vector of known width
+		if at := e.A.get(a); at != nil {
+			w := 0
+			switch {
+			case at.Kind == "byte":
+				w = 8
+			case at.Kind == "bv" && at.BV != nil:
+				for i, b := range at.BV.Bits {
+					if b.Kind != '0' {
+						w = i + 1
+					}
+				}
+			case at.Fn == "index":
+				w = 8
+			}
+			if w > 0 && w < 63 {
+				max := new(big.Int).Sub(new(big.Int).Lsh(big.NewInt(1), uint(w)), big.NewInt(1))
+				all = append(all, geZero{formRat(new(big.Rat).SetInt(max)).Sub(formAtom(a)), fmt.Sprintf("%s < 2^%d", trunc(a, 40), w)})
+			}
+		}
+	}
+	for a := range target.Atoms() {
+		addAtom(a)
 	}
 	for _, f := range facts {
 		for a := range f.D.Atoms() {
-			if e.atomNonneg(a) {
-				all = append(all, geZero{formAtom(a), a + " >= 0"})
-			}
+			addAtom(a)
 		}
 	}
 	// truncated division: c·idiv(X, c) <= X <= c·idiv(X, c) + c − 1 for X >= 0
@@ -420,11 +446,55 @@ func (e *Engine) refutes(conds []*BoolVal, c *BoolVal) bool {
 	if c == nil || c.Const != nil {
 		return false
 	}
-	neg := e.factsOf([]*BoolVal{c.Not()})
+	if c.Op == "==" {
+		// an equality is refuted by a strict inequality either way
+		a, okA := c.A.(*Form)
+		b, okB := c.B.(*Form)
+		if !okA || !okB || !intForm(a) || !intForm(b) {
+			return false
+		}
+		return e.refutes(conds, &BoolVal{Op: "<=", A: a, B: b, Src: c.Src, Exact: c.Exact}) || e.refutes(conds, &BoolVal{Op: ">=", A: a, B: b, Src: c.Src, Exact: c.Exact})
+	}
+	nc := *c.Not()
+	nc.Src, nc.Exact = nil, nil // c is judged as the engine reads it
+	neg := e.factsOf([]*BoolVal{&nc})
 	if len(neg) == 0 {
 		return false
 	}
-	facts := e.factsOf(conds)
+	// only conditions that mention an atom of c can refute it (directly; chains
+	// through a third quantity are not attempted)
+	want := map[string]bool{}
+	for _, n := range neg {
+		for a := range n.D.Atoms() {
+			want[a] = true
+		}
+	}
+	var rel []*BoolVal
+	for _, pc := range conds {
+		fa, okA := pc.A.(*Form)
+		fb, okB := pc.B.(*Form)
+		if !okA || !okB {
+			continue
+		}
+		hit := false
+		for a := range fa.Atoms() {
+			if want[a] {
+				hit = true
+			}
+		}
+		for a := range fb.Atoms() {
+			if want[a] {
+				hit = true
+			}
+		}
+		if hit {
+			rel = append(rel, pc)
+		}
+	}
+	if len(rel) == 0 {
+		return false
+	}
+	facts := e.factsOf(rel)
 	// c is refuted when every way of c.Not() holding... c.Not() is a
 	// conjunction of the facts in neg (1 for orderings, 2 for ==): c is
 	// impossible iff all of them follow from the path
